@@ -4,7 +4,7 @@ META = {
     "title": "ChaCha key-stream exhaustion is an atomic error; no counter wrap, no key-stream reuse",
     "design_ref": "6/C11",
     "technique": "Coq proof: the Buffer invariant of C02 gives apply = Ok iff pos + n <= limit, Err leaves data/position/invariant unchanged, seek past the end is Err never Panic; differential correspondence on histories concentrated at the limits, result codes and data compared with the model (absolute), bytes through the implementation's block oracle",
-    "level_text": "Machine-checked theorems of Props/C11.v about Model/ChaChaStream.v: IETF apply succeeds exactly when pos + n <= 2^38 and otherwise returns Err with data, position and invariant unchanged; IETF try_seek succeeds exactly for p <= 2^38 and never panics; seek to the limit then apply of 0 bytes is Ok; the 64-bit variants never exhaust below 2^64 bytes; every byte produced is key stream of a block index below the limit with the nonce words as constructed (no reuse). Model tied to the code on generated boundary histories in debug and release profiles.",
+    "level_text": "Machine-checked theorems of Props/C11.v about Model/ChaChaStream.v: IETF apply succeeds exactly when pos + n <= 2^38 and otherwise returns Err with data, position and invariant unchanged; IETF try_seek succeeds exactly for p <= 2^38 and never panics; seek to the limit then apply of 0 bytes is Ok; the 64-bit variants never exhaust below 2^64 bytes; every byte produced is key stream of a block index below the limit with the nonce words as constructed (no reuse). Model tied to the code on generated boundary histories in debug and release profiles. All ten theorems are also pinned as closed instances for the REAL block producers of Model/ChaChaGuts.v and the seven constructors (C11_real_*: no producers_spec hypothesis left, only byte-ness and lengths of key and nonce), with the profile-explicit versions of Props/C02.v (C02_profile_*).",
     "level_note": "Trusted: Coq kernel+VM; hand-written model of rustcrypto_impl.rs (tied only on generated histories); block producers specified by blockfn as Section hypotheses; harness and case printer. No axioms.",
     "rule": "cases = histories of {seek::<T>(p), apply(n), current_pos::<T>()} concentrated within 4 blocks of 0, 2^32 blocks, 2^38 bytes (IETF end: exactly to the end, one past, after the final block) and 2^64-1 bytes (64-bit variants), every SeekNum type incl. negative i32; half of the histories on the IETF variant; distinct = distinct (variant,key,nonce,ops); non-trivial = applies at least one byte and (mid-block seek or more than 3 ops); after every failed apply the harness checks the data is unchanged and the following output against the abstract position",
     "assumptions": ["little-endian host", "cipher 0.3 StreamCipher/StreamCipherSeek provided methods only forward to try_apply_keystream/try_seek/try_current_pos"],
